@@ -77,6 +77,15 @@ def cases(ctx):
             yield Case(f'sw_decode {ty}/{nh(net)} {ver} {sh(s)}', 'gms', nontrivial=net != 'testnet', tag='recreate',
                        spec=lambda ans, prog=prog: (f's:raw ok {hx(prog)}', ans))
             yield Case(f'is_bech32 {sh(s)}', 'ms', nontrivial=True, tag='predicate', spec=lambda ans: ('s:raw ok 1', ans))
+        # the translated constructor (class string -> numeric version; witness_program wins over address) against the implementation
+        if rng.random() < 0.5:
+            other = G.rbytes(rng, ln)
+            bad = exp[:-1] + ('q' if exp[-1] != 'q' else 'p')
+            for a_, p_ in ((None, prog), (exp, None), (exp, other), (exp.upper(), b''), (None, None), ('', b''), (bad, None), (bad, prog),
+                           ('', None), (exp, b'')):
+                ctx.count('gen-init')
+                yield Case(f'sw_init {ty}/{nh(net)} {"none" if a_ is None else (sh(a_) or "-")} {"none" if p_ is None else (hx(p_) or "-")}',
+                           'g', nontrivial=True, tag='gen-init', domain=False)
         onet = rng.choice([n for n in NETS if hrp(n) != hrp(net)])
         yield Case(f'sw_decode {ty}/{nh(onet)} {ver} {sh(exp)}', 'gms', nontrivial=True, tag='reject-same-string-other-net', spec=lambda ans: ('s:raw err', ans))
         oty = rng.choice([t for t in KIND if KIND[t][0] != ver])
@@ -234,6 +243,13 @@ def impl(op, a, ctx):
         return f'ok {1 if is_address_bech32(F.bytes().decode()) else 0}'
     tn = F.next().split(':')[0]; ty, net = tn.split('/'); setup(net)
     cls = {'p2wpkh': P2wpkhAddress, 'p2wsh': P2wshAddress, 'p2tr': P2trAddress}[ty]
+    if op == 'sw_init':
+        a_ = F.next(); p_ = F.next()
+        kw = {}
+        if a_ != 'none': kw['address'] = '' if a_ == '-' else unhx(a_).decode()
+        if p_ != 'none': kw['witness_program'] = '' if p_ == '-' else p_
+        o = cls(**kw)
+        return f'ok {o.segwit_num_version} {o.to_witness_program()}'
     ver = F.nat()
     if op == 'sw_addr':
         prog = F.bytes()
